@@ -19,7 +19,8 @@ pub fn decode_3ds(c: &mut Case, f: Fmt, w: usize, h: usize, payload: &[u8], tag:
     let t = Tex { name: "t".into(), width: w, height: h, format: f.code(), payload: payload.to_vec(), palette: vec![] };
     let img = texcont::ctpk(&[t], &mut Rng::new(1), false).bytes;
     let what = format!("ctpk::read ({} {}x{} {})", f.name(), w, h, tag);
-    match c.lib(&what, || ctpk::read(&img).map_err(|e| e.to_string())) {
+    let img_t = crate::monitor::tight(&img);
+    match c.lib(&what, || ctpk::read(&img_t).map_err(|e| e.to_string())) {
         None => {
             digest(c, tag, b"panic");
             None
@@ -97,7 +98,8 @@ fn check_etc(c: &mut Case, alpha: bool, w: usize, h: usize, payload: &[u8], tag:
     }
     // and through the public mila::decode
     let what = format!("mila::decode ({} {}x{} {})", f.name(), w, h, tag);
-    match c.lib(&what, || mila::decode(payload, w, h, alpha).map_err(|e| e.to_string())) {
+    let payload_t = crate::monitor::tight(payload);
+    match c.lib(&what, || mila::decode(&payload_t, w, h, alpha).map_err(|e| e.to_string())) {
         None => digest(c, &format!("{}:direct", tag), b"panic"),
         Some(Err(e)) => c.fail("decode_err", "decode_err:etc1_direct", format!("{}: Err({})", what, e)),
         Some(Ok(px)) => {
@@ -315,7 +317,7 @@ pub fn run(cx: &mut Ctx) {
         for v in &vals {
             p.extend_from_slice(&v.to_be_bytes());
         }
-        match c.lib("ColorFormat::RGB5A3.decode", || ColorFormat::RGB5A3.decode(&p).map_err(|e| e.to_string())) {
+        match c.lib("ColorFormat::RGB5A3.decode", || ColorFormat::RGB5A3.decode(&crate::monitor::tight(&p)).map_err(|e| e.to_string())) {
             None => digest(c, "rgb5a3", b"panic"),
             Some(Err(e)) => c.fail("decode_err", "decode_err:rgb5a3", format!("ColorFormat::RGB5A3.decode returned Err({})", e)),
             Some(Ok(px)) => {
@@ -348,7 +350,7 @@ pub fn run(cx: &mut Ctx) {
             for v in &vals {
                 p.extend_from_slice(&v.to_be_bytes());
             }
-            match c.lib("ColorFormat::RGB5A3.decode", || ColorFormat::RGB5A3.decode(&p).map_err(|e| e.to_string())) {
+            match c.lib("ColorFormat::RGB5A3.decode", || ColorFormat::RGB5A3.decode(&crate::monitor::tight(&p)).map_err(|e| e.to_string())) {
                 None => {}
                 Some(Err(e)) => c.fail("decode_err", "decode_err:rgb5a3", format!("ColorFormat::RGB5A3.decode of {} values returned Err({})", n, e)),
                 Some(Ok(px)) => {
@@ -492,7 +494,8 @@ fn check_ci8(c: &mut Case, w: usize, h: usize, rng: &mut Rng) {
     let t = Tex { name: String::new(), width: w, height: h, format: 0, payload, palette: palette.clone() };
     let img = texcont::tpl(&[t], rng, false).bytes;
     let what = format!("Tpl::extract_textures (CI8 {}x{}, {} colours)", w, h, npal);
-    match c.lib(&what, || Tpl::extract_textures(&img).map_err(|e| e.to_string())) {
+    let img_t = crate::monitor::tight(&img);
+    match c.lib(&what, || Tpl::extract_textures(&img_t).map_err(|e| e.to_string())) {
         None => digest(c, &format!("ci8:{}x{}", w, h), b"panic"),
         Some(Err(e)) => c.fail("decode_err", "decode_err:ci8", format!("{}: Err({})", what, e)),
         Some(Ok(v)) => {
